@@ -377,6 +377,19 @@ def run_unit(unit, tier, res):
         if n == 1 and len(res.samples) < 12:
             o = call(spec.fn, e.obj)
             res.samples.append({"pred": spec.name, "entry": e.label, "answer": _short(o.val if o.ok else o.exc, 60)})
+    if spec.name == "unwrap":
+        # a type variable inside a qualifier: unwrap() peels the qualifier, what is left is the variable ITSELF (its bound or
+        # constraints are a reading the graph applies afterwards, not something unwrap() decides)
+        m = C.module()
+        for src, tv in (("typing.ClassVar[T]", m.T), ("typing.Final[TBound]", m.TBound), ("typing.ClassVar[TCons]", m.TCons), ("typing.Final[T]", m.T)):
+            q = eval(src, m.__dict__)  # noqa: S307 - fixed table
+            cold.clear_all()
+            o = call(spec.fn, q)
+            res.evals += 1
+            res.outcomes.add(h64("unwrap-typevar", src, "ok" if o.ok else o.excname))
+            if not (o.ok and o.val is tv):
+                res.violation("C17/unwrap/answer/qualifier[typevar]", f"unwrap({src}) = {_short(o.val if o.ok else o.exc, 60)}; admissible: the type variable {tv!r} itself",
+                              {"pred": "unwrap", "entry": "typing.ClassVar[int]"})
     if n == 0:
         res.caps.append("empty-domain:" + spec.name)
     for lx, ly, kind in C.reordered_pairs(tier):
